@@ -30,6 +30,7 @@ type targetPanic struct {
 // ---- decisions ----
 
 type node struct {
+	vals   []int // concretize nodes: value of each alternative (-1 = out of range)
 	alts   []T // nil entry = unconditional alternative
 	choice int
 	next   int // next alternative index to try on backtrack
@@ -88,6 +89,8 @@ type Worker struct {
 	jobPaths  int
 	known     map[int]bool
 	allocLimit int
+	pendingVals []int
+	forceNode bool
 	reached   []string
 
 	res *HarnessResult // accumulates locally; merged at job end
@@ -337,7 +340,7 @@ func (w *Worker) decide(alts []T, exhaustive bool, kind string) int {
 	if nf == 0 {
 		panic(pathEnd{kind: "infeasible"})
 	}
-	if nf == 1 && (exhaustive || (alts[last] != nil && alts[last].IsTrue())) {
+	if nf == 1 && !w.forceNode && (exhaustive || (alts[last] != nil && alts[last].IsTrue())) {
 		// no fork; the single alternative holds on this path (by exhaustiveness)
 		return last
 	}
@@ -348,6 +351,7 @@ func (w *Worker) decide(alts []T, exhaustive bool, kind string) int {
 				// donated prefix: fill in
 				nd.alts = alts
 				nd.kind = kind
+				nd.vals = w.pendingVals
 				if nd.choice >= len(alts) {
 					panic(pathEnd{kind: "abort", msg: "engine: donated prefix out of range"})
 				}
@@ -417,7 +421,7 @@ func (w *Worker) decide(alts []T, exhaustive bool, kind string) int {
 			}
 			continue
 		}
-		nd := node{alts: alts, choice: i, next: i + 1, kind: kind}
+		nd := node{alts: alts, choice: i, next: i + 1, kind: kind, vals: w.pendingVals}
 		// donate remaining alternatives if others are idle
 		if nd.next < len(alts) && w.eng.sched.hungry() {
 			pre := make([]int, len(w.nodes), len(w.nodes)+1)
@@ -521,8 +525,10 @@ func (w *Worker) branch(c T) bool {
 	return r
 }
 
-// concretize forks over the values 0..n-1 of t (plus out-of-range alternative,
-// returned as -1).
+// concretize forks over the feasible values 0..n-1 of t (plus an
+// out-of-range alternative, returned as -1). The feasible values are found by
+// model enumeration, so a term that the path condition pins to one value
+// costs two queries, not n.
 func (w *Worker) concretize(t T, n int, kind string) int {
 	if t.IsConst() {
 		if t.V < uint64(n) {
@@ -530,16 +536,60 @@ func (w *Worker) concretize(t T, n int, kind string) int {
 		}
 		return -1
 	}
-	alts := make([]T, n+1)
-	for i := 0; i < n; i++ {
-		alts[i] = w.tb.Eq(t, w.tb.Const(t.W, uint64(i)))
+	if w.cursor < w.replayLen && !w.assertRep {
+		nd := &w.nodes[w.cursor]
+		if nd.vals == nil {
+			panic(pathEnd{kind: "abort", msg: "engine: nondeterministic replay (concretize)"})
+		}
+		w.cursor++
+		return nd.vals[nd.choice]
 	}
-	alts[n] = w.tb.Uge(t, w.tb.Const(t.W, uint64(n)))
+	// enumerate feasible values (ascending order for determinism across workers)
+	var vals []int
+	oor := false
+	w.solver.Push()
+	for len(vals) <= n {
+		v := w.solver.Check()
+		if v != sym.Sat {
+			break
+		}
+		x, err := w.solver.TermValue(t)
+		if err != nil {
+			break
+		}
+		if x >= uint64(n) {
+			oor = true
+			w.solver.Assert(w.tb.Ult(t, w.tb.Const(t.W, uint64(n))))
+			continue
+		}
+		vals = append(vals, int(x))
+		w.solver.Assert(w.tb.Ne(t, w.tb.Const(t.W, x)))
+	}
+	w.solver.PopTo(w.solver.Level() - 1)
+	sort.Ints(vals)
+	if oor {
+		vals = append(vals, -1)
+	}
+	if len(vals) == 0 {
+		panic(pathEnd{kind: "infeasible"})
+	}
+	alts := make([]T, len(vals))
+	for i, v := range vals {
+		if v < 0 {
+			alts[i] = w.tb.Uge(t, w.tb.Const(t.W, uint64(n)))
+		} else {
+			alts[i] = w.tb.Eq(t, w.tb.Const(t.W, uint64(v)))
+		}
+	}
+	// always record a node (even for a single feasible value) so that replay,
+	// which cannot enumerate, consumes the same number of decisions
+	w.pendingVals = vals
+	w.forceNode = true
 	r := w.decide(alts, true, kind)
-	if r == n {
-		return -1
-	}
-	return r
+	w.forceNode = false
+	w.pendingVals = nil
+	w.learn(alts[r], true)
+	return vals[r]
 }
 
 // backtrack finds the next unexplored alternative; returns false when the
